@@ -129,9 +129,13 @@ prop("C09", "exploration",
      "early (cleanly or with an error) or corrupt a byte, new versions of a name with the same or another size; queries Received([...]) with tiling and "
      "arbitrary ranges, partials listing; oracle = byte-range reference model: everything the receiver claims (listing, Received, completeness) is covered "
      "by acknowledged ranges of that version and the staged bytes equal what was sent; acknowledged ranges stay listed until the file is complete or the "
-     "version changes; non-trivial = multi-part file AND (fault, retransmission, overlap profile or version change)",
+     "version changes; non-trivial = multi-part file AND (fault, retransmission, overlap profile or version change). Stress unit (plain goroutines, real "
+     "clock): per case 250 fresh files, each prepared and then hit by 2-3 concurrent receptions of different parts and 0-3 concurrent 'did you receive' "
+     "queries; every acknowledged part must be on record afterwards",
      [dict(pkg="stagex", test="TestC09Stage", world="W1r", quick=1600, thorough=48000, per_proc=100, shrink_runs=200,
-           required_classes=["fault-2", "name-reuse", "scan-nonempty"])],
+           required_classes=["fault-2", "name-reuse", "scan-nonempty"]),
+      dict(pkg="racex", test="TestC09Concurrent", world="W0-stress", quick=64, thorough=2000, shards=16, shrink_runs=4,
+           required_classes=["queries-concurrent-with-receptions"])],
      STAGE_ASSUME + ["Received() answering 'no' for a range that is held is an under-claim and not judged here (it costs a retransmission, see C07/C08)"])
 
 prop("C20", "exploration",
